@@ -28,6 +28,7 @@ def dispatch (op : String) (j : Json) : Json :=
   | "C09.cols" => C09.cols j
   | "HT.run" => HTd.run j
   | "K.eval" => KD.eval j
+  | "K.view" => KD.evalView j
   | "Np.eval" => NpD.eval j
   | "RL2.run" => RL2d.run j
   | "DC.run" => DCd.run j
